@@ -1,8 +1,5 @@
 import Deb822Verif.Props.C05
 import Deb822Verif.Props.C04Tokens
-import Deb822Verif.Model.DebWrap
-import Deb822Verif.Lemmas.DebEditTok
-import Deb822Verif.Lemmas.DebWrapTok
 /-!
 # C05 (tokens) — paragraph operations on documents whose root holds bare tokens
 
@@ -116,6 +113,20 @@ theorem C05_frame_add_prefix (d : Doc) :
       subst this
       exact ⟨_, by simp only [List.append_assoc]; rfl⟩
 
+/-- **`terminate_last_line` when the last child of the root is a bare token**: `last.parent()` is
+    the ROOT itself, so the NEWLINE token is appended to the root's children — the child list grows
+    by one (this is what `terminateLastLine_length_allNodes` excluded); nothing happens when that
+    token is a NEWLINE (every live result of `wrap_and_sort` whose last child is a token ends so) -/
+theorem C05_terminate_root_token (init : List DNode) (k : Kind) (t : Str) :
+    terminateLastLine (init ++ [.tok k t]) =
+      if k = .NEWLINE then init ++ [.tok k t] else init ++ [.tok k t, .tok .NEWLINE ['\n']] := by
+  unfold terminateLastLine lastLeafKind
+  rw [lastTok_snoc_tok]
+  simp only [Option.map_some]
+  split
+  · rfl
+  · simp
+
 /-- the node-only statement of `Props/C05.lean` follows -/
 theorem C05_frame_add_of_any (d : Doc) (h : ∀ c ∈ d.kids, c.isNode = true) :
     (addParagraph d).kids =
@@ -209,18 +220,6 @@ theorem C05_history_refines_wrapped (s : Str) (le : Option (DNode → DNode → 
   `DocS` with the same paragraphs (`rinv_flat`: a paragraph absorbs the bare comment lines behind
   it, as a reader does). -/
 
-/-- every document satisfying the token-aware edit invariant re-reads -/
-theorem rereads_of_runits (kids : List DNode) (us : List RUnit) (hk : kids = rkids us) (h : RInv us) :
-    Rereads kids := by
-  subst hk
-  obtain ⟨huwf, hstr, hcont⟩ := rinv_flat us h
-  have hwf := erase_wf _ huwf
-  have hs : (erase (flat .g us)).str = textList (rkids us) := by rw [erase_str, hstr]
-  refine ⟨erase (flat .g us), hwf, hs, ?_, ?_, ?_⟩
-  · rw [← hs]; exact C03.C03_parse_inverts _ hwf
-  · rw [← hs]; exact (C03.C03_accept _ hwf).1
-  · rw [docItems_tree, erase_content, hcont]; rfl
-
 /-- `wrap_and_sort(None, None)` on the tree of a `DocS` never panics; its children are the root
     units `wrapUnits` -/
 theorem C05_wrapped_exists (d0 : DocS) :
@@ -239,13 +238,8 @@ theorem C05_reread_wrapped_live (d0 : DocS) (hwf : d0.WF) (w : DNode)
     let d' := run d ops
     ∃ s : DocS, s.WF ∧ s.str = d'.root.text ∧ parse d'.root.text = ⟨s.tree, []⟩
       ∧ readStrict d'.root.text = .ok s.tree
-      ∧ docItems s.tree = (ditems d'.kids).filter nonEmpty := by
-  have hw' : w = .node .ROOT (rkids (wrapUnits d0)) := by
-    have := deb822Wrap_runits d0
-    rw [hw] at this; exact Option.some.inj this
-  obtain ⟨us', h1, h2⟩ := run_runits ops (wrapUnits d0) d (rinv_wrapUnits d0 hwf)
-    (by rw [hd, hw']; rfl) hv
-  exact rereads_of_runits _ us' h1 h2
+      ∧ docItems s.tree = (ditems d'.kids).filter nonEmpty :=
+  C04_reread_history_wrapped d0 hwf w hw d hd ops hv
 
 /-- **oracle step (4) on a wrapped document, in terms of the list model** (`C05_history_reread_model`
     with start `w`): one handle per paragraph of `w`, any history with valid arguments; the printed
@@ -279,6 +273,15 @@ theorem C05_reread_wrapped_start (d0 : DocS) (hwf : d0.WF) (w : DNode)
 /-! ### non-vacuity -/
 
 example : C03.exDoc.WF := by decide
+example : ∃ w, deb822Wrap none none C03.exDoc.tree = some w := ⟨_, (C05_wrapped_exists _).choose_spec.1⟩
+example : (deb822Wrap none none (parse "# only\n".toList).tree).map (fun w =>
+      (convertIndex w.children 0, (w.children.filter Node.isNode).length, w.children.length))
+    = some (none, 0, 2) := by decide +kernel
+/-- a root with bare tokens only: `add_paragraph` puts NO blank line in front of the new paragraph
+    (`children().count()` counts nodes), the comment line then leads the new paragraph -/
+example : (deb822Wrap none none (parse "# only\n".toList).tree).map (fun w =>
+      ((addParagraph (startOf w.children)).onPara 0 (fun cs => paraSet cs "N".toList "n".toList)).root.text)
+    = some "# only\nN: n\n".toList := by decide +kernel
 example : RInv (wrapUnits C03.exDoc) := by decide +kernel
 example : ∀ o ∈ C04.exOps, o.Valid := by decide
 /-- the invariant admits what the operations make of a wrapped document: a paragraph directly
